@@ -107,15 +107,33 @@ fn jail() -> Jail {
     Jail { _tmp: tmp, top: scratch, inner: top, root, sib, before }
 }
 
-fn reset_root(j: &Jail) {
+fn try_reset_root(j: &Jail) -> std::io::Result<()> {
     let r = j.root.as_std_path();
     let _ = std::fs::remove_dir_all(r);
-    std::fs::create_dir_all(r).unwrap();
+    let _ = std::fs::remove_file(r);
+    std::fs::create_dir_all(r)?;
     // something to act on inside
-    std::fs::write(r.join(NA), b"inside-a").unwrap();
-    std::fs::create_dir_all(r.join(NB)).unwrap();
-    std::fs::write(r.join(NB).join(NA), b"inside-ba").unwrap();
-    std::fs::write(r.join("other"), b"inside-other").unwrap();
+    std::fs::write(r.join(NA), b"inside-a")?;
+    std::fs::create_dir_all(r.join(NB))?;
+    std::fs::write(r.join(NB).join(NA), b"inside-ba")?;
+    std::fs::write(r.join("other"), b"inside-other")
+}
+
+/// a name that escaped may have removed, renamed or replaced the directories ABOVE the root: that is itself a violation
+/// (it shows up in the snapshot comparison); here the jail is rebuilt so that the walk can go on
+fn reset_root(j: &Jail) {
+    if try_reset_root(j).is_err() {
+        // whatever sits where a directory of the chain should be is removed, then the chain is rebuilt
+        let mut d = j.root.as_std_path().to_path_buf();
+        while d.starts_with(&j.top) && d != j.top {
+            if d.is_file() {
+                let _ = std::fs::remove_file(&d);
+            }
+            d.pop();
+        }
+        jail_fix(j);
+        let _ = try_reset_root(j);
+    }
 }
 
 /// real spelling of a model component; the names are unlikely ones so that a name that escapes
@@ -168,14 +186,15 @@ fn main() {
     }
     let g: Value = serde_json::from_str(&std::fs::read_to_string(&a[2]).unwrap()).unwrap();
     if a[1] == "paths" {
-        paths(&g, a[3].parse().unwrap());
+        let l: usize = a[3].parse().unwrap();
+        paths(&g, l, a.get(4).map(|x| x.parse().unwrap()).unwrap_or(l));
     } else {
         reqs(&g, a[3].parse().unwrap(), a.get(4).map(|x| x == "edges").unwrap_or(false));
     }
 }
 
 // ------------------------------------------------------------------ C12
-fn paths(g: &Value, l: usize) {
+fn paths(g: &Value, l: usize, lops: usize) {
     // edges: (start, stack) --comp--> stack'
     let mut edges: HashMap<(String, Vec<String>), Vec<(String, Vec<String>)>> = HashMap::new();
     for e in g["edges"].as_array().unwrap() {
@@ -234,8 +253,8 @@ fn paths(g: &Value, l: usize) {
                     } else if lex != lexical(exp.as_std_path()) && !fully_popped && drift.len() < 20 {
                         drift.push(json!({"name": name, "native": native.as_str(), "model": exp.as_str()}));
                     }
-                    // every operation with this name, on a fresh root
-                    for op in 0..14 {
+                    // every operation with this name, on a fresh root (names longer than `lops` components: resolution only)
+                    for op in 0..(if comps.len() <= lops { 14 } else { 0 }) {
                         reset_root(&j);
                         ops += 1;
                         let other = "other";
